@@ -397,6 +397,11 @@ func Gen(g *common.Gen, p Profile) {
 			g.Stat("face-" + sc + "-" + lt)
 			s.faces = append(s.faces, id)
 		}
+		// concurrent registration of a local and a non-local face in the real face table
+		if p.ID == "C09" && r.Chance(1, 2) || r.Chance(1, 20) {
+			g.Op("faces2 %d", common.Pick(r, []int{8, 16, 32}))
+			g.Stat("faces2")
+		}
 		// scope classification by the real transport constructors
 		for k := r.Range(0, 2); k > 0; k-- {
 			a := common.Pick(r, scopeProbes)
